@@ -179,3 +179,10 @@ def run_lines(argv, lines, nshards=16):
         for j, r in enumerate(outs[k]):
             out[k + j * n] = r
     return out
+
+
+def out_bytes(r):
+    """Exact output bytes of an obs answer."""
+    if "outx" in r:
+        return bytes.fromhex(r["outx"])
+    return r.get("out", "").encode("utf-8", "surrogatepass")
